@@ -6,11 +6,11 @@
 (* event [e |-> call with arguments, post |-> projected state after it].    *)
 EXTENDS Parameters, ParamTraces
 VARIABLES tid, l
-tvars == <<pars, varylist, variable_list, stepsizes, file, other, ret, hist, other0, tid, l>>
+tvars == <<pars, varylist, variable_list, stepsizes, file, other, ret, hist, other0, kind, tid, l>>
 TrInit == /\ tid \in 1..Len(Traces) /\ l = 1
           /\ pars = <<>> /\ varylist = <<>> /\ variable_list = <<>> /\ stepsizes = <<>>
           /\ file = [exists |-> FALSE, lines |-> <<>>] /\ ret = R("none", 0) /\ hist = <<>>
-          /\ other = Traces[tid].other0 /\ other0 = other
+          /\ other = Traces[tid].other0 /\ other0 = other /\ kind = "none"
 More == l <= Len(Traces[tid].events)
 E == Traces[tid].events[l].e
 P == Traces[tid].events[l].post
@@ -30,7 +30,7 @@ Act == CASE E.ev = "addpar" -> AddPar(E.n, E.v, E.vary, E.cv, E.st)
 (* bind every logged field of the projected state *)
 PostMatches == /\ pars' = P.pars /\ varylist' = P.varylist /\ variable_list' = P.variable_list
                /\ stepsizes' = P.stepsizes /\ other' = P.other /\ ret' = P.ret
-TrNext == More /\ Act /\ PostMatches /\ l' = l + 1 /\ UNCHANGED <<tid, other0>>
+TrNext == More /\ Act /\ PostMatches /\ l' = l + 1 /\ UNCHANGED <<tid, other0, kind>>
 TrSpec == TrInit /\ [][TrNext]_tvars
 TrEmit == PrintT("@@" \o ToJson([tid |-> tid, l |-> l]))
 =============================================================================
